@@ -151,6 +151,18 @@ def typed_eq(it, ty, x, y):
     if m:
         if len(x.fields) != len(y.fields):
             return False
+        if m.group(1).strip() in INT_TYPES:
+            # byte strings: compare concrete elements directly, keep only the symbolic comparisons
+            sym = []
+            for p, q in zip(x.fields, y.fields):
+                if p is q:
+                    continue
+                if isinstance(p, Int) and isinstance(q, Int) and p.conc and q.conc:
+                    if p.v != q.v:
+                        return False
+                else:
+                    sym.append(it.veq(p, q))
+            return b_and(*sym) if sym else True
         return b_and(*[typed_eq(it, m.group(1), p, q) for p, q in zip(x.fields, y.fields)])
     if ty.startswith('(') and ty.endswith(')'):
         parts = mir.split_top(ty[1:-1])
